@@ -95,6 +95,17 @@ func registerHost(in *Interp) {
 		}
 		return strconv.Itoa(int(n))
 	}
+	H["strconv.Atoi"] = func(in *Interp, a []Value, _ ssa.CallInstruction) Value {
+		s, ok := a[0].(string)
+		if !ok {
+			in.unmodelled("strconv.Atoi on a symbolic string")
+		}
+		n, err := strconv.Atoi(s)
+		if err != nil {
+			return Tuple{in.B.Const(in.WordBits, 0), in.newError("strconv.Atoi", nil)}
+		}
+		return Tuple{in.B.Const(in.WordBits, uint64(int64(n))), Iface{}}
+	}
 	conc2 := func(f func(a, b string) bool) HostFn {
 		return func(in *Interp, a []Value, _ ssa.CallInstruction) Value {
 			x, ok1 := a[0].(string)
